@@ -281,14 +281,10 @@ def run_history_fresh(hist, scratch):
             fs.toggle_f1(d)
             outs.append(None)
             continue
-        res = os.path.join(scratch, 'fresh-result.json')
-        if os.path.exists(res):
-            os.unlink(res)
-        p = subprocess.run([fs.PY, '-m', 'mc.cachefs', 'call', json.dumps(op), res], cwd=d, env=fs.child_env(),
-                           capture_output=True, text=True, timeout=600)
-        if os.path.exists(res):
-            with open(res) as f:
-                outs.append(json.load(f))
+        p = subprocess.run([fs.PY, '-m', 'mc.cachefs', 'call', json.dumps(op)], cwd=d, env=fs.child_env(),
+                           capture_output=True, text=True, timeout=3600)
+        if p.stdout.startswith('{'):
+            outs.append(json.loads(p.stdout))
         else:
             outs.append({'r': 'died', 'how': 'rc=%s %s' % (p.returncode, p.stderr[-200:])})
     shutil.rmtree(d, ignore_errors=True)
